@@ -81,7 +81,7 @@ static bool cycle_check(int desc, const Config &g, int b, std::string &err) {
     return true;
 }
 
-enum { S_CYCLE, S_CREATE_HOLD, S_USE_SHARED, S_DESTROY_HELD, S_QUERY_SHARED, S_NOPS };
+enum { S_CYCLE, S_CREATE_HOLD, S_USE_SHARED, S_DESTROY_HELD, S_QUERY_SHARED, S_QUERY_UNKNOWN, S_NOPS };
 struct SOp { int op, a, b; };
 struct LiveRec { int desc; uint64_t t_create, t_destroy; };
 struct SWorker { int tid; std::vector<SOp> ops; std::string err; std::vector<LiveRec> lives; std::vector<std::pair<int, Config>> held; };
@@ -121,6 +121,18 @@ static void *sworker(void *p) {
             if (g_shared->empty()) break;
             SharedInst &sh = (*g_shared)[o.a % g_shared->size()];
             std::string e; if (!cycle_check(sh.desc, sh.g, o.b, e)) w.err = "shared descriptor: " + e;
+            break;
+        }
+        case S_QUERY_UNKNOWN: {
+            // descriptors that no create ever returns (0, negatives) or has returned in this process (top of the range):
+            // unknown at every instant, whatever the other threads are in the middle of
+            for (int bad : {0, -1, -(1 + o.b), INT32_MAX - 3 - (o.b % 5)}) {
+                int a = liberasurecode_get_aligned_data_size(bad, (uint64_t)o.b * 7), f = liberasurecode_get_fragment_size(bad, o.b * 7), m = liberasurecode_get_minimum_encode_size(bad);
+                if (a >= 0 || f >= 0 || m >= 0) { w.err = "size query on unknown descriptor " + std::to_string(bad) + " answered (aligned=" + std::to_string(a) + " fragment=" + std::to_string(f) + " minimum=" + std::to_string(m) + ") while another thread was inside the library"; break; }
+                char d8[8] = {1, 2, 3, 4, 5, 6, 7, 8}; char **ed = nullptr, **ep = nullptr; uint64_t fl = 0;
+                int e = liberasurecode_encode(bad, d8, 8, &ed, &ep, &fl);
+                if (e >= 0) { w.err = "encode on unknown descriptor " + std::to_string(bad) + " succeeded"; break; }
+            }
             break;
         }
         case S_QUERY_SHARED: {
@@ -191,14 +203,15 @@ static void base_workload(Case &c, int which) {
     case 0: c.set("threads", 2); c.setl("shared", {}); c.setl("ops", {0, S_CYCLE, 0, 1, 1, S_CYCLE, 4, 2}); break;                    // create RS ; use ; destroy  ||  same (first-ever RS)
     case 1: c.set("threads", 2); c.setl("shared", {1}); c.setl("ops", {0, S_CYCLE, 0, 1, 1, S_USE_SHARED, 0, 2, 1, S_QUERY_SHARED, 0, 0}); break;   // create/use/destroy || use shared
     case 2: c.set("threads", 2); c.setl("shared", {}); c.setl("ops", {0, S_CREATE_HOLD, 0, 1, 0, S_DESTROY_HELD, 0, 0, 1, S_CREATE_HOLD, 2, 1, 1, S_CYCLE, 4, 2, 1, S_DESTROY_HELD, 0, 0}); break;
+    case 4: c.set("threads", 2); c.setl("shared", {}); c.setl("ops", {0, S_CYCLE, 0, 1, 1, S_QUERY_UNKNOWN, 0, 3, 1, S_QUERY_UNKNOWN, 0, 11}); break;        // create/use/destroy || queries on unknown descriptors
+    case 5: c.set("threads", 2); c.setl("shared", {1}); c.setl("ops", {0, S_CREATE_HOLD, 2, 1, 0, S_DESTROY_HELD, 0, 0, 1, S_QUERY_UNKNOWN, 0, 5, 1, S_QUERY_UNKNOWN, 0, 2}); break;
     default: c.set("threads", 2); c.setl("shared", {2}); c.setl("ops", {0, S_CYCLE, 3, 1, 0, S_CYCLE, 0, 2, 1, S_CYCLE, 0, 3, 1, S_USE_SHARED, 0, 1}); break;
     }
 }
 // all schedules with <= 2 preemptions: a switch at event i and at event j (i <= j), both starting threads
-static void sweep_sched() {
+static void sweep_sched_range(int wl_from, int wl_to) {
     int shard = (int)opts().shard, ns = (int)opts().nshards; int64_t counter = 0;
-    int nwl = (int)opts().geti("workloads", opts().tier == "thorough" ? 4 : 2);
-    for (int wl = 0; wl < nwl; wl++) {
+    for (int wl = wl_from; wl < wl_to; wl++) {
         Case dry; base_workload(dry, wl); dry.setl("schedule", {}); dry.set("first", 0);
         Result rr = run_sched(dry); (void)rr;
         int E = g_last_events + 8;
@@ -218,6 +231,8 @@ static void sweep_sched() {
     stats().exhaustive = true;
     stats().extra["preemption_bound"] = 2;
 }
+static void sweep_sched() { sweep_sched_range(0, (int)opts().geti("workloads", opts().tier == "thorough" ? 4 : 2)); sweep_sched_range(4, opts().tier == "thorough" ? 6 : 5); }
+static void sweep_sched_c08() { sweep_sched_range(4, 6); }
 static Case gen_sched() {
     Case c;
     int nt = coin(2, 3) ? 2 : 3;
@@ -227,7 +242,7 @@ static Case gen_sched() {
     c.setv("shared", sh);
     std::vector<int> ops;
     int per = (int)pick(1, 4);
-    for (int t = 0; t < nt; t++) for (int j = 0; j < per; j++) { ops.push_back(t); ops.push_back(nshared ? weighted({5, 3, 3, 2, 1}) : weighted({5, 3, 0, 2, 0})); ops.push_back(coin(2, 3) ? (int)pick(0, 1) * 4 : (int)pick(0, 23)); ops.push_back((int)pick(0, 50)); }
+    for (int t = 0; t < nt; t++) for (int j = 0; j < per; j++) { ops.push_back(t); ops.push_back(nshared ? weighted({5, 3, 3, 2, 1, 2}) : weighted({5, 3, 0, 2, 0, 2})); ops.push_back(coin(2, 3) ? (int)pick(0, 1) * 4 : (int)pick(0, 23)); ops.push_back((int)pick(0, 50)); }
     c.setv("ops", ops);
     // PCT-like: mostly "stay", a few switch points at random depths
     int len = (int)pick(10, 400);
@@ -244,6 +259,7 @@ int main(int argc, char **argv) {
     Harness h;
     h.prop = "C18";
     h.mode("c18_sched_exhaustive", sweep_sched, run_sched);
+    h.mode("c08_sched", sweep_sched_c08, run_sched);
     h.mode("c18_sched", [] { rc_property("C18 controlled schedules", gen_sched, run_sched); }, run_sched);
     return harness_main(argc, argv, h);
 }
